@@ -50,7 +50,7 @@ func (e *Enc) instr(ins ssa.Instruction) {
 		elemT := x.Type().Underlying().(*types.Slice).Elem()
 		ln := e.val(x.Len)
 		e.panicIf(fmt.Sprintf("(< %s 0)", ln), "makeslice: len out of range", x)
-		e.vals[x] = e.r.def(e.name(x), s, fmt.Sprintf("(mk_%s ((as const (Array Int %s)) %s) %s false)", s, es, e.g().Zero(elemT), ln))
+		e.vals[x] = e.r.def(e.name(x), s, fmt.Sprintf("(mk_%s %s %s false)", s, e.g().ConstArray(es, e.g().Zero(elemT)), ln))
 	case *ssa.MakeMap:
 		s := e.g().SortOf(x.Type())
 		kv := e.g().mapKV[s]
@@ -348,7 +348,7 @@ func (e *Enc) binop(op token.Token, X, Y ssa.Value, resT types.Type, at ssa.Inst
 		}
 		return e.wrap(fmt.Sprintf("(- %s %s)", a, b), resT)
 	case token.MUL:
-		return e.wrap(fmt.Sprintf("(* %s %s)", a, b), resT)
+		return e.wrap(mulTerm(a, b), resT)
 	case token.QUO:
 		e.panicIf(fmt.Sprintf("(= %s 0)", b), "integer division by zero", at)
 		if signed {
@@ -415,6 +415,9 @@ func isNilConst(v ssa.Value) bool {
 }
 
 func constInt(v ssa.Value) (int64, bool) {
+	if v == nil {
+		return 0, false
+	}
 	c, ok := v.(*ssa.Const)
 	if !ok || c.Value == nil || c.Value.Kind() != constant.Int {
 		return 0, false
@@ -474,7 +477,11 @@ func (e *Enc) slice(x *ssa.Slice) {
 		arrTerm, _ := e.load(l)
 		at := t.Elem().Underlying().(*types.Array)
 		as := e.g().SortOf(t.Elem())
-		if x.Low == nil && x.High == nil {
+		hiFull := x.High == nil
+		if c, ok := constInt(x.High); x.High != nil && ok && c == at.Len() {
+			hiFull = true
+		}
+		if x.Low == nil && hiFull {
 			e.vals[x] = e.r.def(e.name(x), rs, fmt.Sprintf("(mk_%s (%s_arr %s) %d false)", rs, as, arrTerm, at.Len()))
 			return
 		}
